@@ -311,12 +311,60 @@ func runC03(rc *RunCtx) {
 		}
 	}
 	c03NearMisses(rc)
+	c03DomainSweep(rc)
 	ProbeHistory(rc, rc.Pick(200, 800), false)
 	// hostile history on top
 	for h := 0; h < rc.Pick(1, 3); h++ {
 		e, err := NewHistoryEngine(rc, GenOpts{}, false, false)
 		if err == nil {
 			RunHistory(e, NewGen(e), rc.Pick(300, 1500), 0)
+		}
+	}
+}
+
+// sweepDomains: every small domain id and the values around the powers of two.
+func sweepDomains() []uint32 {
+	var ds []uint32
+	for d := uint32(0); d <= 72; d++ {
+		ds = append(ds, d)
+	}
+	for sh := uint(7); sh < 32; sh++ {
+		ds = append(ds, 1<<sh-1, 1<<sh, 1<<sh+1)
+	}
+	return append(ds, 0xfffffffe, 0xffffffff)
+}
+
+// c03DomainSweep: all-true receives from every source domain of sweepDomains: a message not addressed to the module
+// (needs no registry entry), and for the domains 6..24 - which get a messenger and a token pair in genesis - a
+// module-addressed burn message. Acceptance does not depend on which number the source domain is.
+func c03DomainSweep(rc *RunCtx) {
+	e, err := StdEngine(rc, false, false, func(gs *ct.GenesisState, cfg *chain.Config) {
+		for d := uint32(6); d <= 24; d++ {
+			gs.TokenMessengerList = append(gs.TokenMessengerList, ct.RemoteTokenMessenger{DomainId: d, Address: Messenger(d, 0)})
+			gs.TokenPairList = append(gs.TokenPairList, ct.TokenPair{RemoteDomain: d, RemoteToken: Token(0), LocalToken: "uusdc"})
+		}
+	})
+	if err != nil {
+		rc.Cov.Inconclusive("c03 domain sweep engine: " + err.Error())
+		return
+	}
+	nonce := uint64(6_600_000)
+	for i, d := range sweepDomains() {
+		if i%rc.NShards != rc.Shard {
+			continue
+		}
+		nonce++
+		in := &InMsg{Version: 0, Src: d, Dst: 4, Nonce: nonce, Sender: Structured32(byte(d)), Recipient: Structured32(0x70), Caller: make([]byte, 32), Body: []byte("from anywhere")}
+		raw := in.Bytes()
+		r := e.Exec(Tx{Msgs: msgs1(&ct.MsgReceiveMessage{From: Acct(UserIx), Message: raw, Attestation: e.Attest(raw, i%3)}), Note: fmt.Sprintf("C03 domain sweep: plain message from source domain %d", d)})
+		rc.Cov.Cell("C03_domain_sweep", "plain/"+okWord(r.OK))
+		if d >= 6 && d <= 24 {
+			nonce++
+			m := StdInbound(nonce, 1, big.NewInt(int64(10+d)))
+			m.Src, m.Sender = d, Messenger(d, 0)
+			raw := m.Bytes()
+			r := e.Exec(Tx{Msgs: msgs1(&ct.MsgReceiveMessage{From: Acct(UserIx), Message: raw, Attestation: e.Attest(raw, i%3)}), Note: fmt.Sprintf("C03 domain sweep: burn message from source domain %d", d)})
+			rc.Cov.Cell("C03_domain_sweep", "module/"+okWord(r.OK))
 		}
 	}
 }
